@@ -285,6 +285,17 @@ Theorem C15_addfields_order : forall d1 t1 d2 t2 ps r, d1 <> d2 ->
 Proof. exact addfields_swap_lemma. Qed.
 Print Assumptions C15_addfields_order.
 
+(* hence any order of pairwise non-interfering fields gives the same record, and the order the loader
+   uses (sorted by name) is a permutation of the configured one *)
+Theorem C15_addfields_permutation : forall ps ps', Permutation ps ps' -> all_indep ps ->
+  forall r, run_addfields ps r = run_addfields ps' r.
+Proof. exact addfields_perm_lemma. Qed.
+Print Assumptions C15_addfields_permutation.
+
+Theorem C15_addfields_sorted_is_permutation : forall l, Permutation (sort_pairs l) l.
+Proof. exact sort_pairs_perm. Qed.
+Print Assumptions C15_addfields_sorted_is_permutation.
+
 (* ---- matchers ---- *)
 
 Theorem C15_match_ops_spec : forall O v,
